@@ -301,3 +301,41 @@ func TestD16(t *testing.T) {
 		t.Fatalf("subtype s parameter received the subtype t value: %v", r.Out(0))
 	}
 }
+
+// ---- known finding D17 (C01): recorded, not repaired ----
+type IA interface{ M() }
+type IB interface{ M() } // same method set as IA: the two interface types implement each other
+
+type T9 int
+
+// TestKnownD17 FAILS while the finding is present: a parameter of type IA
+// with subtype "b" receives a converter result labelled IA with subtype "a",
+// through the subtype-less intermediate output of the mutually implementing
+// interface type IB.
+func TestKnownD17(t *testing.T) {
+	bad := 0
+	for i := 0; i < 50; i++ {
+		f := am.MustFunc(am.NewFunc(func(in struct {
+			am.Struct
+			V IA `argmapper:",typeOnly,subtype=b"`
+		}) int {
+			return int(in.V.(Impl))
+		}))
+		r := f.Call(nolog,
+			am.Converter(func() struct {
+				am.Struct
+				V IA `argmapper:",typeOnly,subtype=a"`
+			} {
+				return struct {
+					am.Struct
+					V IA `argmapper:",typeOnly,subtype=a"`
+				}{V: Impl(7)}
+			}, func(x IB) T9 { return 0 }))
+		if r.Err() == nil {
+			bad++
+		}
+	}
+	if bad > 0 {
+		t.Fatalf("parameter (IA, subtype b) received the value labelled (IA, subtype a) in %d/50 calls", bad)
+	}
+}
